@@ -520,6 +520,7 @@ class AppClock(Clock, metaclass=MetaAppClock):
 class ClockScheduler():
     def __init__(self):
         self.queue = tsq.TaskQueue()
+        self._clock_tasks = dict()  # Pending ClockTask by (clock, task).
 
     def run(self):
         while not self.queue.empty():
@@ -531,9 +532,19 @@ class ClockScheduler():
 
     def reset(self):
         self.queue.clear()
+        self._clock_tasks.clear()
 
 
 class ClockTask():
+    def __new__(cls, beats, clock, task, scheduler):
+        # As in the queues of rt clocks, a task that is scheduled
+        # again on the same clock is moved, not duplicated.
+        obj = scheduler._clock_tasks.get((clock, task))
+        if obj is None:
+            obj = super().__new__(cls)
+            scheduler._clock_tasks[(clock, task)] = obj
+        return obj
+
     def __init__(self, beats, clock, task, scheduler):
         self.clock = clock
         self.task = task
@@ -541,12 +552,14 @@ class ClockTask():
         scheduler.add(clock.beats2secs(beats), self)
 
     def _wakeup(self, time):
+        if self.scheduler._clock_tasks.get((self.clock, self.task)) is self:
+            del self.scheduler._clock_tasks[(self.clock, self.task)]
         try:
             _libsc3.main._update_logical_time(time)
             beats = self.clock.secs2beats(time)
             delta = self.task.__awake__(self.clock)
             if isinstance(delta, (int, float)) and not isinstance(delta, bool):
-                self.scheduler.add(self.clock.beats2secs(beats + delta), self)
+                ClockTask(beats + delta, self.clock, self.task, self.scheduler)
         except stm.StopStream:
             pass
         except Exception:
